@@ -68,7 +68,12 @@ def gen_case(rng, tier):
     items = []
     for i in range(n_prod):
         r = rng.random()
-        if r < 0.45:
+        if r < 0.15:
+            # a producer whose result is falsy (None / [] / {} / 0): "already evaluated" must not be confused with "evaluated to nothing"
+            nm = rng.choice(['none', 'emptyl', 'emptyd', 'zero']) + f'_{i}' if False else rng.choice([f'none{i}', f'empty{i}l', f'empty{i}d', f'zero{i}'])
+            items.append([f'p{i}', SP('call', func=f'verif_targets.{nm}', args=M([['x', S(i)]]))])
+            prods.append({'path': (f'p{i}',), 'name': nm, 'top': f'p{i}', 'falsy': True})
+        elif r < 0.45:
             items.append([f'p{i}', SP('call', func=f'verif_targets.r{i}', args=M([['x', S(i)]]))])
             prods.append({'path': (f'p{i}',), 'name': f'r{i}', 'top': f'p{i}'})
         elif r < 0.6:
@@ -89,6 +94,8 @@ def gen_case(rng, tier):
         p = rng.choice(alive)
         tgt = gen.path_str(p['path'])
         kind = rng.choice(['xref', 'xref', 'idcall', 'eval_name', 'eval_container', 'fstr', 'list', 'xref_container', 'bind'])
+        if p.get('falsy') and kind == 'fstr':
+            kind = 'xref'            # a falsy result has no .name to format
         key = f'k{j}'
         if kind == 'xref':
             node = SP('xref', path=tgt)
@@ -149,7 +156,7 @@ def gen_case(rng, tier):
     for o in perms:
         d = M([doc['items'][i] for i in o])
         ptexts.append([emit.emit(d, style)] + texts[1:])
-    return {'route': rng.choice(['config', 'ctx']), 'texts': texts, 'perms': ptexts, 'prods': [{'path': list(p['path']), 'name': p['name'], 'top': p['top'], 'deleted': p in deleted} for p in prods], 'cons': cons}
+    return {'route': rng.choice(['config', 'ctx']), 'texts': texts, 'perms': ptexts, 'prods': [{'path': list(p['path']), 'name': p['name'], 'top': p['top'], 'deleted': p in deleted, 'falsy': bool(p.get('falsy'))} for p in prods], 'cons': cons}
 
 
 def _tag(v):
@@ -213,6 +220,7 @@ def run(case):
                 want = c09.value_at(cfg, gen.path_str(tuple(c['of'])))
                 have = cfg[c['key']]
                 ok = True
+                immut = want is None or (isinstance(want, int) and not isinstance(want, bool))
                 if c['kind'] in ('xref', 'idcall', 'eval_name'):
                     ok = have is want
                 elif c['kind'] in ('xref_container', 'eval_container'):
